@@ -315,6 +315,10 @@ int apply_low (const char *fun, object_t * ob, int num_arg) {
           apply_low_collisions++;
         }
 #endif
+      /* the slot is empty until it is filled again below: push_control_stack() may raise "too deep recursion"
+       * first, and the old name must not be released a second time by the next miss on this slot */
+      entry->id = 0;
+      entry->name = 0;
       sfun = (char *) fun;
       prog = find_function_by_name2 (ob, &sfun, &index, &fio, &vio);
 
